@@ -46,6 +46,44 @@ def NavInv (root : Node) : Prop :=
     rootOf [root] fuel x = root ∧
     pathOf [root] fuel x = as.reverse ++ [x]
 
+/-! ### `all_children` -/
+
+theorem sizeL_flatMap_children (q : List Node) : sizeL (q.flatMap children) + q.length ≤ sizeL q := by
+  induction q with
+  | nil => simp [sizeL]
+  | cons e q ih =>
+    have := sizeL_children_lt e
+    simp only [List.flatMap_cons, sizeL_append, List.length_cons, sizeL]
+    omega
+
+/-- breadth-first order by levels: all elements of one level (in order), then all their
+    children (in order), and so on -/
+def levelOrder : List Node → List Node
+  | [] => []
+  | e :: q => (e :: q) ++ levelOrder ((e :: q).flatMap children)
+termination_by q => sizeL q
+decreasing_by
+  have := sizeL_flatMap_children (e :: q)
+  simp only [List.length_cons] at this
+  omega
+
+/-- `Reach root x`: `x` is reachable from `root` through `children` (`root` itself included) -/
+inductive Reach (root : Node) : Node → Prop
+  | root : Reach root root
+  | child {p c : Node} : Reach root p → c ∈ children p → Reach root c
+
+/-- `x` is a proper descendant of `root`: a child of something reachable -/
+def Below (root x : Node) : Prop := ∃ p, Reach root p ∧ x ∈ children p
+
+/-- the `all_children` clause of the property: the elements below `root`, level by level,
+    each identity once, the root not among them, nothing else -/
+def AllChildrenSpec (root : Node) : Prop :=
+  allChildren root = levelOrder (children root) ∧
+  ((allChildren root).map Node.id).Nodup ∧
+  (∀ x ∈ allChildren root, x.id ≠ root.id) ∧
+  (∀ x, x ∈ allChildren root ↔ Below root x) ∧
+  (∀ x, x ∈ allChildren root ↔ Reach root x ∧ x ≠ root)
+
 /-- object identities are unique: no node occurs twice in the tree (no aliasing) -/
 def UniqueIds (root : Node) : Prop := (ids root).Nodup
 
@@ -61,6 +99,112 @@ def OpArgsWP : Op → Prop
   | .map (.setitem _ a) => ArgWP a
   | .map (.updateArgs kvs) => ∀ p ∈ kvs, ArgWP p.2
   | _ => True
+
+/-! ### keys: what uniqueness of identities depends on in a mapping
+
+`replaceKid` (dict item assignment in the model) overwrites *every* child stored under the key,
+and `_reset()` makes one child per declared field: a mapping node holding two children under
+one key, or a mapping class declaring one key twice, makes the model store one element twice.
+Python's dict cannot be in that state; the model's `Node` type can, so the identity theorems
+carry `kok` (a decidable check of the tree, preserved by every call). -/
+
+def isMap : SKind → Bool
+  | .dict | .sparse => true
+  | _ => false
+
+mutual
+/-- a class whose mapping classes (at any depth) declare every key once -/
+def swf : Schema → Bool
+  | .mk info _ subs => (!isMap info.kind || decide ((subs.map Schema.key).Nodup)) && swfL subs
+def swfL : List Schema → Bool
+  | [] => true
+  | f :: fs => swf f && swfL fs
+end
+
+mutual
+/-- a tree whose mappings hold at most one child per key, all of whose classes are `swf` -/
+def kok : Node → Bool
+  | .mk _ s kids => swf s && (!isMap s.kind || decide ((kids.map Node.key).Nodup)) && kokL kids
+def kokL : List Node → Bool
+  | [] => true
+  | k :: ks => kok k && kokL ks
+end
+
+/-- identities are unique, all below the allocation counter, keys unique in every mapping -/
+structure IdInv (s : HState) : Prop where
+  uniq : UniqueIds s.root
+  below : ∀ a ∈ ids s.root, a < s.next
+  keys : kok s.root = true
+
+/-! ### Element arguments that a call places -/
+
+def argElems : Arg → List Node
+  | .plain _ => []
+  | .elem e => [e]
+
+/-- the Element arguments a list-protocol call puts into the sequence (searching calls —
+    `remove`, `index`, `count`, `in` — only read theirs) -/
+def placedSeq : SeqOp → List Node
+  | .append a | .insert _ a | .setitem _ a => argElems a
+  | .extend as | .iadd as | .setslice _ as => as.flatMap argElems
+  | _ => []
+
+def placedMap : MapOp → List Node
+  | .setitem _ a => argElems a
+  | .updateArgs kvs => kvs.flatMap (fun p => argElems p.2)
+  | _ => []
+
+def placedArgs : Op → List Node
+  | .seq o => placedSeq o
+  | .map o => placedMap o
+
+/-- the Element arguments a call places are fresh or detached objects: none of their identities
+    occurs in the tree or twice among them, all were allocated before (below the counter: the
+    next fresh identity cannot collide with them), and they are key-well-formed themselves -/
+def ArgsFresh (s : HState) (op : Op) : Prop :=
+  ((placedArgs op).flatMap ids ++ ids s.root).Nodup ∧
+  (∀ a ∈ (placedArgs op).flatMap ids, a < s.next) ∧
+  ∀ e ∈ placedArgs op, kok e = true
+
+/-- `ArgsFresh` for every call of a history, each in the state it is applied to -/
+def HistFresh : HState → List HOp → Prop
+  | _, [] => True
+  | s, h :: hs => ArgsFresh s h.op ∧ HistFresh (hstep s h) hs
+
+/-- `e` (an Element handed to a call) sits in the container `n'` as a direct child with its
+    stored parent pointer designating the container: for a List through the ListSlot that holds
+    it (the slot is listed by the List, points to it, and holds exactly `e`, which points to the
+    slot); for an Array / MultiValue / mapping directly -/
+def PlacedIn (n' : Node) (e : Node) : Prop :=
+  match n'.kind with
+  | .list => ∃ slot ∈ n'.kids, slot.parent = some n'.id ∧ slot.kids = [e.withParent (some slot.id)]
+  | .array | .multi => e.withParent (some n'.id) ∈ n'.kids
+  | .dict | .sparse => ∃ key, (e.withParent (some n'.id)).withKey key ∈ n'.kids
+  | _ => False
+
+def IsSeq (k : SKind) : Prop := k = .list ∨ k = .array ∨ k = .multi
+
+/-- the call `op` on container `n` stores the Element `e` itself (rather than a copy of its value
+    or nothing): every Element argument of a placing list-protocol call; for a SparseDict an
+    element of the declared field class assigned to a declared key — by `update` / `|=` the one
+    given last for that key.  (A dense Dict never stores the argument: it sets its existing child.) -/
+def Places (n : Node) (op : Op) (e : Node) : Prop :=
+  match op with
+  | .seq o => IsSeq n.kind ∧ e ∈ placedSeq o
+  | .map (.setitem k (.elem e')) =>
+    e' = e ∧ n.kind = .sparse ∧ ∃ f, fieldFor n.sch.subs k = some f ∧ isInstance e f = true
+  | .map (.updateArgs kvs) =>
+    n.kind = .sparse ∧ ∃ pre post k f, kvs = pre ++ (k, .elem e) :: post ∧ (∀ p ∈ post, p.1 ≠ k) ∧
+      fieldFor n.sch.subs k = some f ∧ isInstance e f = true
+  | _ => False
+
+/-- the call returned normally -/
+def noExc : Out → Prop
+  | .exc _ => False
+  | _ => True
+
+instance (o : Out) : Decidable (noExc o) := by
+  cases o <;> simp only [noExc] <;> infer_instance
 
 /-- **C08 for histories** (stored-pointer clause): from any well-parented tree, after any sequence
     of list-protocol and dict-protocol calls applied to any of its elements — with plain values or with
